@@ -14,6 +14,7 @@
 #include "clang/AST/Stmt.h"
 #include "clang/Analysis/CFG.h"
 #include "clang/Basic/Builtins.h"
+#include <functional>
 #include "clang/Basic/SourceManager.h"
 #include "clang/Frontend/CompilerInstance.h"
 #include "clang/Frontend/FrontendAction.h"
@@ -627,6 +628,50 @@ struct Emitter {
                 else if (isa<ContinueStmt>(T)) k = "continue";
                 else if (auto *BOp = dyn_cast<BinaryOperator>(T)) k = BOp->getOpcode() == BO_LAnd ? "&&" : BOp->getOpcode() == BO_LOr ? "||" : "other";
                 j += std::string(",\"term\":\"") + k + "\",\"term_loc\":" + locJ(T->getBeginLoc());
+                if (auto *LOp = dyn_cast<BinaryOperator>(T)) {
+                    // short-circuit exit: `a || ...` true (resp. `a && ...` false) jumps to the block that branches on the
+                    // enclosing condition; when that condition is a chain of the same operator containing this one, the
+                    // branch there is already decided
+                    if (LOp->isLogicalOp() && B->succ_size() == 2) {
+                        auto I = B->succ_begin();
+                        if (LOp->getOpcode() == BO_LAnd) ++I;
+                        const CFGBlock *Sx = I->getReachableBlock();
+                        if (!Sx) Sx = I->getPossiblyUnreachableBlock();
+                        const Stmt *SC = Sx ? Sx->getTerminatorCondition(true) : nullptr;
+                        const Stmt *ST = Sx ? Sx->getTerminatorStmt() : nullptr;
+                        if (SC && ST && !isa<BinaryOperator>(ST) && !isa<ConditionalOperator>(ST) && !isa<SwitchStmt>(ST)) {
+                            std::function<bool(const Expr *)> det = [&](const Expr *E) -> bool {
+                                E = E->IgnoreParenImpCasts();
+                                if (E == LOp) return true;
+                                if (auto *BO = dyn_cast<BinaryOperator>(E))
+                                    if (BO->getOpcode() == LOp->getOpcode()) return det(BO->getLHS()) || det(BO->getRHS());
+                                return false;
+                            };
+                            if (auto *SE = dyn_cast<Expr>(SC)) {
+                                // wrappers around the chain: __builtin_expect(x, c), !x (flips the decided branch)
+                                int sign = 1;
+                                const Expr *E = SE->IgnoreParenImpCasts();
+                                for (int guard = 0; guard < 16; ++guard) {
+                                    if (auto *CE = dyn_cast<CallExpr>(E)) {
+                                        if (CE->getBuiltinCallee() == Builtin::BI__builtin_expect && CE->getNumArgs() == 2) {
+                                            E = CE->getArg(0)->IgnoreParenImpCasts();
+                                            continue;
+                                        }
+                                    }
+                                    if (auto *UO = dyn_cast<UnaryOperator>(E)) {
+                                        if (UO->getOpcode() == UO_LNot) {
+                                            sign = -sign;
+                                            E = UO->getSubExpr()->IgnoreParenImpCasts();
+                                            continue;
+                                        }
+                                    }
+                                    break;
+                                }
+                                if (det(E)) j += std::string(",\"sc_forced\":") + (sign > 0 ? "1" : "-1");
+                            }
+                        }
+                    }
+                }
                 const Stmt *C = B->getTerminatorCondition(true);
                 if (B->succ_size() == 2 && !isa<SwitchStmt>(T)) {
                     // the value that decides this branch is the last expression evaluated in the block
